@@ -1,5 +1,7 @@
 import MgProof.C05.TsStep
+import MgProof.C05.TsLegal
 import MgProof.C05.RingInv
+import MgProof.C05.RingLegal
 import MgProof.C05.SowrStep
 import MgModel.C05.TsOrig
 /-!
@@ -69,6 +71,18 @@ theorem ts_ring_accounts_for_pool (k n : Nat) (progs : List (List Op)) (s : Ts.S
   obtain ⟨c, d, _⟩ := Ts.reach_inv hr hl
   have := d.cnt; subst this
   exact ⟨d.fi, d.c1.1⟩
+
+/-- **Clause 1 + 2, ts pool, unconditional form.** If the client programs contain no malformed
+operation (`X`: free of a block the thread does not hold), the history is legal by construction —
+every `f g t u x` operation frees a block its thread owns — so for every schedule no block is
+handed out twice and exhaustion is reported only when exhausted. -/
+theorem ts_safe_for_wellformed_clients (k n : Nat) (progs : List (List Op))
+    (hwf : ∀ p, p ∈ progs → ∀ op, op ∈ p → wellFormed op = true) (s : Ts.St)
+    (hr : Reach Ts.step (Ts.mkInit (2 ^ k) n progs) s) :
+    s.g.illegal = 0 ∧ s.g.double = 0 ∧ s.spuriousNull = 0 := by
+  have w := Ts.reach_wf hwf hr
+  obtain ⟨_, d, _⟩ := w.inv w.il
+  exact ⟨w.il, d.dbl, d.spn⟩
 
 /-- mutual exclusion of allocators (and of freers) in the repaired pool -/
 theorem ts_allocators_serialised (k n : Nat) (progs : List (List Op)) (s : Ts.St)
@@ -229,6 +243,16 @@ theorem ring_locked_no_misuse (cap n : Nat) (progs : List (List Op)) (s : Ring.S
   all_goals (try (split at hs))
   all_goals (try (simp at hs; done))
   all_goals (try (injection hs with hs; injection hs with hs _; subst hs; simp_all))
+
+/-- **Clause 1, ring pool, unconditional form.** Spin-locked allocators, any number of threads,
+well-formed client programs (no `X`), every schedule: the history is legal by construction and
+no allocation returns a block that is still owned. -/
+theorem ring_locked_safe_for_wellformed_clients (cap n : Nat) (progs : List (List Op))
+    (hwf : ∀ p, p ∈ progs → ∀ op, op ∈ p → wellFormed op = true) (s : Ring.St)
+    (hr : Reach Ring.step (Ring.mkInit cap n true progs) s) :
+    s.g.illegal = 0 ∧ s.misuse = 0 ∧ s.g.double = 0 := by
+  have w := Ring.reach_wf hwf hr
+  exact ⟨w.il, w.ms, (w.inv ⟨w.il, w.ms⟩).dbl⟩
 
 /-- non-vacuity: a legal reachable state of the ring pool (two spin-locked allocators) -/
 example : ∃ s, Reach Ring.step (Ring.mkInit 2 2 true [[.a], [.a, .f]]) s ∧ s.g.illegal = 0 ∧ s.misuse = 0 ∧
